@@ -1536,6 +1536,55 @@ impl TypeLayout {
 
     /// - `Self` is the expected type
     /// - `rhs` is the supplied type
+    /// `lhs == rhs` said no: is that the answer of [`TypeLayout::eq_complex`] whatever the flags?
+    ///
+    /// `==` compares the elements of two list types with the plain flags and looks through the `?`
+    /// of two optionals; function and map types are compared by `==` alone. A type check flag can
+    /// only let more through where an optional, a generic, a `Self` or a `str` is compared.
+    fn flags_cannot_accept_more(lhs: &Self, rhs: &Self, classless: bool) -> bool {
+        let lhs = lhs.disregard_distractors(false);
+        let rhs = rhs.disregard_distractors(false);
+
+        match (lhs, rhs) {
+            (Self::Function(_), Self::Function(_)) | (Self::Map(_), Self::Map(_)) => true,
+            (Self::List(t1), Self::List(t2)) => {
+                if classless {
+                    return true;
+                }
+
+                match (t1, t2) {
+                    (ListType::Open(x), ListType::Open(y)) => {
+                        Self::flags_cannot_accept_more(x, y, classless)
+                    }
+                    (ListType::Mixed(xs), ListType::Mixed(ys)) => {
+                        xs.len() != ys.len()
+                            || xs
+                                .iter()
+                                .zip(ys.iter())
+                                .all(|(x, y)| Self::flags_cannot_accept_more(x, y, classless))
+                    }
+                    (ListType::Mixed(xs), ListType::Open(y)) => xs
+                        .iter()
+                        .all(|x| Self::flags_cannot_accept_more(x, y, classless)),
+                    (ListType::Open(x), ListType::Mixed(ys)) => ys
+                        .iter()
+                        .all(|y| Self::flags_cannot_accept_more(x, y, classless)),
+                }
+            }
+            (Self::Optional(Some(x)), Self::Optional(Some(y))) => {
+                match (x.as_ref().as_ref(), y.as_ref().as_ref()) {
+                    (x @ Self::List(_), y @ Self::List(_))
+                    | (x @ Self::Function(_), y @ Self::Function(_))
+                    | (x @ Self::Map(_), y @ Self::Map(_)) => {
+                        Self::flags_cannot_accept_more(x, y, classless)
+                    }
+                    _ => false,
+                }
+            }
+            _ => false,
+        }
+    }
+
     pub fn eq_complex<T>(&self, rhs: &Self, flags: impl Deref<Target = TypecheckFlags<T>>) -> bool
     where
         T: Deref<Target = ClassType> + Debug,
@@ -1561,11 +1610,10 @@ impl TypeLayout {
         }
 
         // `==` on two list types has just compared their elements with the plain flags. When these are
-        // the flags of this call too, the list arms below would walk the same elements a second time -
-        // twice per level of nesting, so 2^depth comparisons for two deep types that differ at the core.
-        if flags.is_classless()
-            && matches!((lhs.as_ref(), rhs.as_ref()), (Self::List(_), Self::List(_)))
-        {
+        // the flags of this call too, or when no flag can make a difference to the elements, the arms
+        // below would walk the same elements a second time - twice per level of nesting, so 2^depth
+        // comparisons for two deep types that differ at the core.
+        if Self::flags_cannot_accept_more(&lhs, &rhs, flags.is_classless()) {
             return false;
         }
 
